@@ -50,19 +50,30 @@ CONSTANTS D,             \* size of the length prefix (size_of::<usize>() = 8)
           History,       \* TRUE (needs Bounded): keep the observation history `obs` that P_C11_History talks about
           Record,        \* TRUE: keep the step history `hist` (generator configs)
           Depth,         \* generator: behaviour length
-          Deviations     \* subset of {"UndecodableWedge", "OversizeWedge", "FullNoShift"}: the code as it (mis)behaves
+          Edges,         \* TRUE: edge-triggered notifications as in the real event loops (mio/epoll): the receiver's owner
+                         \* is only GUARANTEED a readable event when new bytes arrive (`rxEv`), never for bytes that were
+                         \* already reported; spurious wake-ups stay possible but nothing may depend on them (liveness
+                         \* configs). FALSE: wake-ups at any time (a superset of behaviours: safety configs, conformance)
+          Deviations     \* subset of {"UndecodableWedge", "OversizeWedge", "FullNoShift"}: the code as it (mis)behaves;
+                         \* self-test switches (defect classes TLC must refute in every run): "ShrinkNoShift" (the buffer
+                         \* is truncated without compacting the pending bytes first), "CeilingClearsReadiness" (readable()
+                         \* at the ceiling forgets that the socket still holds bytes instead of dropping its interest),
+                         \* "DrainClearsReadiness" (its mirror in writable(): a drained sender forgets that the socket is
+                         \* writable instead of dropping its interest)
 
 VARIABLES back, txI, txR,        \* sender: back buffer [pos,end,cap], interest/readiness has WRITABLE
+          txEv,                  \* a writable edge has not been reported to the sender yet (only if Edges)
           front, rxI, rxR,       \* receiver: front buffer, interest/readiness has READABLE
           nWire, nSock,          \* bytes in flight / readable by the receiver
+          rxEv,                  \* a readable edge has not been reported to the receiver yet (only if Edges)
           frames,                \* frames between the sender's buffer and the receiver's parser (FIFO)
           skip,                  \* receiver is discarding an oversized frame: bytes still to drop (design only)
           nW, nI, nextId,        \* counters (frozen unless Bounded)
           obs,                   \* observation history [sent, delivered, errs] (frozen unless History)
           hist                   \* step history (only if Record)
 
-core == <<back, txI, txR, front, rxI, rxR, nWire, nSock, frames, skip>>
-vars == <<back, txI, txR, front, rxI, rxR, nWire, nSock, frames, skip, nW, nI, nextId, obs, hist>>
+core == <<back, txI, txR, txEv, front, rxI, rxR, nWire, nSock, rxEv, frames, skip>>
+vars == <<back, txI, txR, txEv, front, rxI, rxR, nWire, nSock, rxEv, frames, skip, nW, nI, nextId, obs, hist>>
 
 RxOn == Scope # "tx"
 TxOn == Scope # "rx"
@@ -96,7 +107,9 @@ Grow(b, n) == IF b.cap >= n THEN b ELSE [b EXCEPT !.cap = n]
 \* shrink(target): shifts first; gives up (after the shift) when data does not fit
 Shrink(b, t) ==
   IF t >= b.cap THEN b
-  ELSE LET s == Shift(b) IN IF s.end > t THEN s ELSE [s EXCEPT !.cap = t]
+  ELSE IF "ShrinkNoShift" \in Deviations
+       THEN IF Data(b) > t THEN b ELSE [b EXCEPT !.cap = t]       \* truncated under the pending bytes: pos/end keep their values
+       ELSE LET s == Shift(b) IN IF s.end > t THEN s ELSE [s EXCEPT !.cap = t]
 
 \* Channel::grow_size: doubling capped at MaxCap; 0 = None (already at the ceiling)
 GrowSize(c) == IF c >= MaxCap THEN 0 ELSE Min(Max(Min(2 * c, MaxCap), c + 1), MaxCap)
@@ -216,8 +229,9 @@ Obs(field, x, on) == IF History /\ on THEN [obs EXCEPT ![field] = Append(@, x)] 
 
 Init ==
   /\ back = Buf(0, 0, InitCap) /\ txI = FALSE /\ txR = FALSE
+  /\ txEv = Edges                      \* registration reports the (initially writable) socket once
   /\ front = Buf(0, 0, InitCap) /\ rxI = TRUE /\ rxR = FALSE
-  /\ nWire = 0 /\ nSock = 0 /\ frames = <<>> /\ skip = 0
+  /\ nWire = 0 /\ nSock = 0 /\ rxEv = FALSE /\ frames = <<>> /\ skip = 0
   /\ nW = 0 /\ nI = 0 /\ nextId = 1
   /\ obs = [sent |-> <<>>, delivered |-> <<>>, errs |-> {}]
   /\ hist = <<>>
@@ -233,30 +247,38 @@ Write(L) ==
      /\ frames' = IF r.ok /\ RxOn THEN Append(frames, f) ELSE frames
      /\ nW' = Count(nW, r.ok) /\ nextId' = Count(nextId, r.ok)
      /\ obs' = Obs("sent", f, r.ok)
-     /\ UNCHANGED <<txR, front, rxI, rxR, nWire, nSock, skip, nI>>
+     /\ UNCHANGED <<txEv, txR, front, rxI, rxR, nWire, nSock, rxEv, skip, nI>>
      /\ Log([op |-> "Write", len |-> L, id |-> id, res |-> IF r.ok THEN "ok" ELSE "too_large",
              st |-> Proj(back', txI', txR, front, rxI, rxR, nWire, nSock)])
 
+\* handle_events(WRITABLE); Edges: see Rx_HandleEvents
 Tx_HandleEvents ==
-  /\ TxOn /\ ~txR /\ txR' = TRUE
-  /\ UNCHANGED <<back, txI, front, rxI, rxR, nWire, nSock, frames, skip, nW, nI, nextId, obs>>
+  /\ TxOn
+  /\ IF Edges THEN txEv \/ (~Canonical /\ ~txR) ELSE ~txR
+  /\ txR' = TRUE /\ txEv' = FALSE
+  /\ UNCHANGED <<back, txI, front, rxI, rxR, nWire, nSock, rxEv, frames, skip, nW, nI, nextId, obs>>
   /\ Log([op |-> "TxEvents", st |-> Proj(back, txI, txR', front, rxI, rxR, nWire, nSock)])
 
 \* writable() when the channel is not (interest & readiness).writable: Err(Connection(None)), nothing changes
 WritableRefused ==
   /\ TxOn /\ ~(txI /\ txR) /\ Record
-  /\ UNCHANGED <<back, txI, txR, front, rxI, rxR, nWire, nSock, frames, skip, nW, nI, nextId, obs>>
+  /\ UNCHANGED <<txEv, back, txI, txR, front, rxI, rxR, nWire, nSock, rxEv, frames, skip, nW, nI, nextId, obs>>
   /\ Log([op |-> "Writable", chunks |-> <<>>, res |-> "refused", st |-> Proj(back, txI, txR, front, rxI, rxR, nWire, nSock)])
 
+\* how writable() leaves the two words: drained = nothing to write (interest loses WRITABLE, the socket is still
+\* writable); would-block = the socket is full (readiness loses WRITABLE)
+WbI(drained) == IF "DrainClearsReadiness" \in Deviations THEN TRUE ELSE ~drained
+WbR(drained) == IF "DrainClearsReadiness" \in Deviations THEN FALSE ELSE drained
 Writable(cs) ==
   LET r == WritableStep(back, cs)
   IN /\ TxOn /\ txI /\ txR
      /\ SumSeq(cs) <= Data(back)
      /\ back' = r.buf
-     /\ txI' = ~r.drained
-     /\ txR' = r.drained
+     /\ txI' = WbI(r.drained)
+     /\ txR' = WbR(r.drained)
+     /\ txEv' = IF Edges /\ ~r.drained THEN TRUE ELSE txEv     \* after a would-block the kernel reports the room it gets back
      /\ nWire' = IF RxOn THEN nWire + r.n ELSE nWire
-     /\ UNCHANGED <<front, rxI, rxR, nSock, frames, skip, nW, nI, nextId, obs>>
+     /\ UNCHANGED <<front, rxI, rxR, nSock, rxEv, frames, skip, nW, nI, nextId, obs>>
      /\ Log([op |-> "Writable", chunks |-> cs, res |-> "ok", n |-> r.n,
              st |-> Proj(back', txI', txR', front, rxI, rxR, nWire', nSock)])
 
@@ -264,7 +286,8 @@ Wire_Move(k) ==
   /\ RxOn /\ k \in 1..nWire
   /\ Canonical => nSock = 0
   /\ nWire' = nWire - k /\ nSock' = nSock + k
-  /\ UNCHANGED <<back, txI, txR, front, rxI, rxR, frames, skip, nW, nI, nextId, obs>>
+  /\ rxEv' = Edges                                \* new bytes: an edge the event loop will report
+  /\ UNCHANGED <<txEv, back, txI, txR, front, rxI, rxR, frames, skip, nW, nI, nextId, obs>>
   /\ Log([op |-> "WireMove", k |-> k, st |-> Proj(back, txI, txR, front, rxI, rxR, nWire', nSock')])
 
 Peer_Inject(f0) ==
@@ -276,28 +299,36 @@ Peer_Inject(f0) ==
      /\ nWire' = nWire + f.len
      /\ nI' = Count(nI, TRUE) /\ nextId' = Count(nextId, TRUE)
      /\ obs' = Obs("sent", f, TRUE)
-     /\ UNCHANGED <<back, txI, txR, front, rxI, rxR, nSock, skip, nW>>
+     /\ UNCHANGED <<txEv, back, txI, txR, front, rxI, rxR, nSock, rxEv, skip, nW>>
      /\ Log([op |-> "Inject", id |-> f.id, len |-> f.len, decl |-> f.decl, kind |-> f.kind,
              st |-> Proj(back, txI, txR, front, rxI, rxR, nWire', nSock)])
 
+\* handle_events(READABLE).  Edges: the report of a pending edge (whatever `readiness` says at that moment), or -
+\* outside the canonical schedules - a spurious wake-up; otherwise any wake-up that changes something.
 Rx_HandleEvents ==
-  /\ RxOn /\ ~rxR /\ rxR' = TRUE
-  /\ Canonical => nSock > 0
-  /\ UNCHANGED <<back, txI, txR, front, rxI, nWire, nSock, frames, skip, nW, nI, nextId, obs>>
+  /\ RxOn
+  /\ IF Edges THEN rxEv \/ (~Canonical /\ ~rxR)
+              ELSE ~rxR /\ (Canonical => nSock > 0)
+  /\ rxR' = TRUE /\ rxEv' = FALSE
+  /\ UNCHANGED <<txEv, back, txI, txR, front, rxI, nWire, nSock, frames, skip, nW, nI, nextId, obs>>
   /\ Log([op |-> "RxEvents", st |-> Proj(back, txI, txR, front, rxI, rxR', nWire, nSock)])
 
 ReadableRefused ==
   /\ RxOn /\ ~(rxI /\ rxR) /\ Record
-  /\ UNCHANGED <<back, txI, txR, front, rxI, rxR, nWire, nSock, frames, skip, nW, nI, nextId, obs>>
+  /\ UNCHANGED <<txEv, back, txI, txR, front, rxI, rxR, nWire, nSock, rxEv, frames, skip, nW, nI, nextId, obs>>
   /\ Log([op |-> "Readable", res |-> "refused", st |-> Proj(back, txI, txR, front, rxI, rxR, nWire, nSock)])
 
+\* how readable() leaves the two words: would-block = the socket is dry (readiness loses READABLE); full at the
+\* ceiling = "I do not want to read now, but the socket may still hold bytes" (interest loses READABLE, readiness kept)
+StopI(stop) == IF "CeilingClearsReadiness" \in Deviations THEN TRUE ELSE stop # "full"
+StopR(stop) == IF "CeilingClearsReadiness" \in Deviations THEN FALSE ELSE stop # "wouldblock"
 Readable ==
   LET r == ReadLoop(front, nSock, 0)
   IN /\ RxOn /\ rxI /\ rxR
      /\ front' = r.buf /\ nSock' = r.sock
-     /\ rxI' = (r.stop # "full")
-     /\ rxR' = (r.stop # "wouldblock")
-     /\ UNCHANGED <<back, txI, txR, nWire, frames, skip, nW, nI, nextId, obs>>
+     /\ rxI' = StopI(r.stop)
+     /\ rxR' = StopR(r.stop)
+     /\ UNCHANGED <<txEv, back, txI, txR, nWire, rxEv, frames, skip, nW, nI, nextId, obs>>
      /\ Log([op |-> "Readable", res |-> "ok", n |-> r.n,
              st |-> Proj(back, txI, txR, front', rxI', rxR', nWire, nSock')])
 
@@ -315,7 +346,7 @@ ReadMessage ==
                ELSE IF r.res \in {"too_large", "under_delimiter", "invalid_protobuf", "buffer_full"}
                     THEN [obs EXCEPT !.errs = @ \cup {<<h.id, r.res>>}]
                ELSE obs
-     /\ UNCHANGED <<back, txI, txR, rxR, nWire, nSock, nW, nI, nextId>>
+     /\ UNCHANGED <<txEv, back, txI, txR, rxR, nWire, nSock, rxEv, nW, nI, nextId>>
      /\ Log([op |-> "ReadMessage", res |-> r.res, id |-> IF r.res = "nothing_read" THEN 0 ELSE h.id,
              len |-> IF r.res = "ok" THEN h.len ELSE 0,
              st |-> Proj(back, txI, txR, front', rxI', rxR, nWire, nSock)])
@@ -341,9 +372,10 @@ Spec == Init /\ [][Next]_vars
 \* both ends are woken up and call readable()/read_message()/writable() when there is work.
 WritableProgress == \E k \in 1..Data(back) : Writable(<<k>>)
 Fairness ==
-  /\ WF_vars(Tx_HandleEvents) /\ SF_vars(WritableProgress)
+  /\ WF_vars(Tx_HandleEvents /\ (Edges => txEv)) /\ SF_vars(WritableProgress)
   /\ WF_vars(\E k \in 1..nWire : Wire_Move(k))
-  /\ WF_vars(Rx_HandleEvents) /\ SF_vars(Readable) /\ WF_vars(ReadMessage)
+  /\ WF_vars(Rx_HandleEvents /\ (Edges => rxEv))      \* edges are reported; a spurious wake-up is never owed
+  /\ SF_vars(Readable) /\ WF_vars(ReadMessage)
 FairSpec == Spec /\ Fairness
 
 ---------------------------------------------------------------------------
@@ -396,16 +428,16 @@ TableSock == MaxCap + D
 
 WrRow(L) == LET r == WriteStep(back, L) IN <<L, B(r.ok), Data(r.buf), Space(r.buf), r.buf.cap>>
 WbRow(k) == LET r == WritableStep(back, IF k = 0 THEN <<>> ELSE <<k>>)
-            IN <<k, Data(r.buf), Space(r.buf), r.buf.cap, B(~r.drained), B(r.drained), r.n>>
+            IN <<k, Data(r.buf), Space(r.buf), r.buf.cap, B(WbI(r.drained)), B(WbR(r.drained)), r.n>>
 RdRow(n) == LET r == ReadLoop(back, n, 0)
-            IN <<n, Data(r.buf), Space(r.buf), r.buf.cap, r.sock, B(r.stop # "full"), B(r.stop # "wouldblock"), r.n>>
+            IN <<n, Data(r.buf), Space(r.buf), r.buf.cap, r.sock, B(StopI(r.stop)), B(StopR(r.stop)), r.n>>
 RmRow(f) == LET r == ReadMsgAt(back, <<f>>, 0)
             IN <<f.len, f.decl, f.kind, r.res, Data(r.buf), Space(r.buf), r.buf.cap, B(r.setI), B(r.pop)>>
 
 TableInit ==
-  /\ back \in AllBufsFrom(InitCap) /\ txI = FALSE /\ txR = FALSE
+  /\ back \in AllBufsFrom(InitCap) /\ txI = FALSE /\ txR = FALSE /\ txEv = Edges
   /\ front = Buf(0, 0, InitCap) /\ rxI = TRUE /\ rxR = FALSE
-  /\ nWire = 0 /\ nSock = 0 /\ frames = <<>> /\ skip = 0
+  /\ nWire = 0 /\ nSock = 0 /\ rxEv = FALSE /\ frames = <<>> /\ skip = 0
   /\ nW = 0 /\ nI = 0 /\ nextId = 1
   /\ obs = [sent |-> <<>>, delivered |-> <<>>, errs |-> {}]
   /\ hist = <<>>
@@ -425,7 +457,7 @@ EmitTables ==
 BufOK(b) == b.pos \in Nat /\ b.end \in Nat /\ b.cap \in Nat
 TypeOK == /\ BufOK(back) /\ BufOK(front)
           /\ txI \in BOOLEAN /\ txR \in BOOLEAN /\ rxI \in BOOLEAN /\ rxR \in BOOLEAN
-          /\ nWire \in Nat /\ nSock \in Nat /\ skip \in Nat
+          /\ nWire \in Nat /\ nSock \in Nat /\ skip \in Nat /\ rxEv \in BOOLEAN /\ txEv \in BOOLEAN /\ (~Edges => (~rxEv /\ ~txEv))
 
 \* (d) every slice the code takes is in range
 P_C11_Slices == /\ back.pos <= back.end /\ back.end <= back.cap
